@@ -73,6 +73,7 @@ KINDS = {
     "zip3-d64": "/arc3.zip/d64.txt",
     "maildir-new": "/md/new", "maildir-cur": "/md/cur",
     "url-named-file": "/docs/URL:",
+    "tal-upper": "/UPPER.HTML.TAL", "gz-lower": "/docs/rep.txt.gz", "gz-upper": "/docs/REP.TXT.GZ",
     "script": "/script.sh",
     "script-big": "/bigscript.sh",
     "gz-big": "/bigz.txt.gz",
@@ -167,6 +168,13 @@ def make_spec(bigsize=9000, nmsg=3, ndocs=4):
         # this Python does not implement (Deflate64)
         {"p": "arc3.zip", "k": "file", "d": {"b64": base64.b64encode(_odd_zip()).decode()}},
         {"p": "docs/URL:", "k": "file", "d": "a file whose name is the URL prefix\n"},
+        # the same suffixes in another letter case (type extensions are matched case-insensitively by
+        # mimetypes, encoding suffixes such as .gz and .tal are not)
+        {"p": "UPPER.HTML.TAL", "k": "file", "d": "<html><body tal:content=\"selector\">x</body></html>\n"},
+        {"p": "docs/rep.txt.gz", "k": "file",
+         "d": {"b64": base64.b64encode(gzip.compress(b"lower case name\n", mtime=0)).decode()}},
+        {"p": "docs/REP.TXT.GZ", "k": "file",
+         "d": {"b64": base64.b64encode(gzip.compress(b"UPPER CASE NAME\n", mtime=0)).decode()}},
         {"p": "arc2.zip", "k": "zip", "members": [["nope/x", "in the second archive\n"], ["d/only2.txt", "2\n"],
                                                    ["a.txt", "another a\n"]]},
         {"p": "script.sh", "k": "file", "d": "#!/bin/sh\necho hello from script\necho \"query=$SEARCHREQUEST\"\necho \"selector=$SELECTOR request=$REQUEST args=$*\"\n", "x": True},
@@ -306,7 +314,18 @@ def execute(sc, tape=None):
             sig = {"proto_family": proto.PROTOCOLS[sc["proto"]][1], "error": sc["error"]}
             if fault.fired == 0:
                 raise sched.HarnessError("send fault did not fire (k=%d nsend=%d)" % (k, nsend))
-            if run.accept_loop_exc is not None:
+            escaped = [a for a in run.sim.actors if a is not run.accept_actor and getattr(a, "exc", None) is not None]
+            if run.killed_by_sigpipe:
+                viol = {"oracle": "process-survives-client-failure",
+                        "signature": dict(sig, oracle="process-survives-client-failure"),
+                        "detail": "the write to the dead client raised SIGPIPE and the program had restored its "
+                                  "default disposition: the serving process was killed, nothing was logged"}
+            elif escaped:
+                viol = {"oracle": "contained-in-handler",
+                        "signature": dict(sig, oracle="contained-in-handler", exc=type(escaped[0].exc).__name__,
+                                          via="left-the-worker"),
+                        "detail": "%r left the connection's worker (after the handler had returned)" % (escaped[0].exc,)}
+            elif run.accept_loop_exc is not None:
                 viol = {"oracle": "accept-loop", "signature": dict(sig, oracle="accept-loop",
                                                                    exc=type(run.accept_loop_exc).__name__),
                         "detail": repr(run.accept_loop_exc)}
